@@ -6,14 +6,14 @@ import os
 from vlib import core, runner
 from .base import Check
 
-OPS = ("A ", "R ", "T ", "X ")
+OPS = ("A ", "R ", "T ", "X ", "P ")
 
 
 def parse_line(line):
     """('A', [ints...], obs) with obs = dict(rc, depth, in, dts{id: trig}, evs{(ev, id): n}) or None."""
     pre, _, post = line.partition(" | ")
     w = pre.split()
-    op, args = w[0], [int(x) for x in w[1:]] if w and w[0] in ("A", "R", "T", "X") else []
+    op, args = w[0], [int(x) for x in w[1:]] if w and w[0] in ("A", "R", "T", "X", "P") else []
     obs = None
     if post.strip():
         t = [int(x) for x in post.split()]
@@ -74,18 +74,24 @@ def cls_fixed_triggered_without_start(clause, lines):
         return False
     adds = adds_of(lines)
     starts = {}
+    excused = set()   # took effect while the checkable was paused: no DowntimeStart is due
+    paused = False
     for l in lines:
-        _, _, obs = parse_line(l)
+        o0, a0, obs = parse_line(l)
         for (ev, i), n in (obs or {"evs": {}})["evs"].items():
             if ev == 1:
                 starts[i] = starts.get(i, 0) + n
+            if ev == 3 and paused:
+                excused.add(i)
+        if o0 == "P":
+            paused = a0[0] == 1
     op, a, obs = parse_line(lines[-1])
     if obs is None:
         return False
     if clause == "started_when_triggered":
-        bad = [i for i, t in obs["dts"].items() if t != 0 and starts.get(i, 0) == 0]
+        bad = [i for i, t in obs["dts"].items() if t != 0 and starts.get(i, 0) == 0 and i not in excused]
     else:
-        bad = [i for (ev, i), n in obs["evs"].items() if ev == 2 and starts.get(i, 0) == 0]
+        bad = [i for (ev, i), n in obs["evs"].items() if ev == 2 and starts.get(i, 0) == 0 and i not in excused]
     if not bad:
         return False
     for i in bad:
@@ -126,7 +132,7 @@ class C05(Check):
     prop = "C05"
     required_theorems = ["in_downtime_iff", "depth_eq_count", "trigger_write_once", "trigger_write_once_run",
                          "trigger_only_in_window", "trigger_cascade", "trigger_cascade_deep", "flexible_trigger", "flexible_trigger_exact", "start_once",
-                         "started_partial", "started_counterexample", "end_once", "expired_removed", "owner_protected",
+                         "started_partial", "paused_requests_nothing", "started_counterexample", "end_once", "expired_removed", "owner_protected",
                          "model_trace_meets_spec_partial"]
     technique = ("Lean 4 proof (invariants over the operation sequence) about a hand-written model of lib/icinga/downtime.cpp; correspondence by "
                  "differential execution of real Host/Service/Downtime objects under the virtual clock and the timer pump")
@@ -134,7 +140,8 @@ class C05(Check):
                   "TriggerDowntime/Start/DowntimesStartTimerHandler/cleanup timer/RemoveDowntime and Checkable::TriggerDowntimes/GetDowntimeDepth/"
                   "IsInDowntime, including a whole-trace theorem (model_trace_meets_spec_partial: every well-formed operation sequence's model trace "
                   "satisfies every clause kind except the two falsified by F-C05c (14 of 16) of the executable specification through the specification's own bookkeeping); the model is tied to the code by running the real objects (direct construction as test/icinga-checkresult.cpp does, "
-                  "and one case in eight through ConfigObjectUtility::CreateObject / Downtime::AddDowntime in a scratch data directory) on generated "
+                  "one case in eight through ConfigObjectUtility::CreateObject / Downtime::AddDowntime in a scratch data directory, and one in eight "
+                  "through the registered API actions schedule-downtime / remove-downtime, i.e. ApiActions::ScheduleDowntime / RemoveDowntime) on generated "
                   "operation sequences and diffing every observation; the executable specification of the property is evaluated on the "
                   "implementation's own trace")
     level_note = ("Trusted: Lean kernel (+ propext, Classical.choice, Quot.sound), sampled correspondence of the hand-written model, harness/driver. "
@@ -142,7 +149,7 @@ class C05(Check):
     trusted_base = [
         "modelled, not verified: times are whole seconds, so the cleanup timer's 0.1 s delay is 'the first instant strictly after'; "
         "Downtime objects get authority (Resume) right after creation, as ApiListener::UpdateObjectAuthority does for HARunOnce objects; "
-        "pause/resume, child downtimes on other checkables (parent/child_options), ScheduledDowntime's own creation/removal, cluster sync and "
+        "pausing a Downtime object itself (its cleanup timer), child downtimes on other checkables (parent/child_options), ScheduledDowntime's own creation/removal, cluster sync and "
         "execution_end in the future of the processing time are outside the model",
     ]
     assumptions = [
@@ -253,8 +260,9 @@ class C05(Check):
         res.rule = ("corpus/C05/*.ops, then a systematic part (one fixed or flexible downtime [1010,1016), host/service, every placement of "
                     "add / result / pump instants on a grid around the window) and seeded random cases: 1-5 fixed/flexible downtimes "
                     "(same / nested / adjacent / random windows, chained via triggered_by, owned by a schedule), 4-25 (thorough 4-43) operations "
-                    "add / result / pump / remove at instants drawn from all boundary instants +-1 plus small random steps; one case in eight "
-                    "creates checkable and downtimes through ConfigObjectUtility::CreateObject / Downtime::AddDowntime. evaluations = operations; "
+                    "add / result / pump / remove / pause-resume of the checkable at instants drawn from all boundary instants +-1 plus small random steps; one case in eight "
+                    "creates checkable and downtimes through ConfigObjectUtility::CreateObject / Downtime::AddDowntime, one in eight additionally "
+                    "schedules / removes through the API actions schedule-downtime / remove-downtime. evaluations = operations; "
                     "a case counts as non-trivial when a downtime was triggered or removed in it (counted by the Lean driver)")
         res.samples = runner.extract_case(save, 900) + ["..."] + runner.extract_case(save, stats["cases"])[:14]
         self._examine(res, harness, driver, save, lines, "gen")
